@@ -240,7 +240,8 @@ impl FcCommand {
             }
             std::cmp::Ordering::Less => {
                 // Negative: offset from end (relative to effective count)
-                let offset = (-num) as usize;
+                // N.B. unsigned_abs() is defined for every negative value.
+                let offset = num.unsigned_abs() as usize;
                 effective_count.saturating_sub(offset)
             }
         };
